@@ -89,6 +89,12 @@ class C28Trigger(Base):
             self.on_cmd(ev)
         elif k == 'CMD_EXEC_END':
             self.in_cmd = False
+        elif k == 'STATE' and ev['id'] in self.owner and \
+                ev['id'] in self.owner[ev['id']]['live_start'] and \
+                ev['before'][0] in ACTIVE:
+            # flows merged into the live job of a group-start member
+            self.owner[ev['id']]['live_flows'].setdefault(
+                ev['id'], set()).update(ev.get('flows') or [])
         elif k == 'STATE' and ev['id'] in self.owner and (
                 not self.in_cmd or ev['id'] not in self.cur_group) \
                 and ev['before'][0] in FINAL and ev['after'][0] == 'waiting':
@@ -162,7 +168,7 @@ class C28Trigger(Base):
             'paused': bool(schd.is_paused),
             'suspended': bool(schd.stop_mode or schd.reload_pending),
             'checked_offgroup': False, 'late_start': set(),
-            'prep_flows': {}, 'fed_by_old_job': set(),
+            'prep_flows': {}, 'fed_by_old_job': set(), 'live_flows': {},
         }
         for tid in sorted(group):
             p, n = split_id(tid)
@@ -199,11 +205,14 @@ class C28Trigger(Base):
             # another flow reaching the member later is not this trigger
             self.n['later_preparation_in_another_flow'] += 1
             return
-        if tid in rec['live_start'] and not rec['preps'][tid] and not (
-                flows & set(rec['before'][tid]['flows'])) and flows:
-            self.n['live_start_member_run_by_another_flow'] += 1
-            rec['prep_flows'].pop(tid, None)
-            return
+        if tid in rec['live_start'] and not rec['preps'][tid] and flows:
+            known = set(rec['before'][tid]['flows']) | rec[
+                'live_flows'].get(tid, set())
+            if not (flows & known) or flows - known:
+                # a flow the live job never belonged to reached the task
+                self.n['live_start_member_run_by_another_flow'] += 1
+                rec['prep_flows'].pop(tid, None)
+                return
         rec['preps'][tid] += 1
         if self.gt['tasks'][n]['exec_retries'] or \
                 self.gt['tasks'][n]['submit_retries']:
